@@ -129,7 +129,10 @@ def run_case(ctx: Ctx, case: Dict[str, Any]) -> None:  # noqa: C901
         nontrivial = True
         ok = True
         if isinstance(got, str) and got not in ("ValueError",):
+            # the type of the exception is C14's business, but an exception is also the wrong *outcome* here
             ctx.count("undocumented-exception(C14):%s" % got)
+            ctx.violation("logic:want-%s-got-%s" % (cls, got), "%s over %s raised %s; the exact answer is %s" % (
+                what, X.fmt_list(allc), got, want if isinstance(want, str) else float(want)), case)
             continue
         if want == "infeasible":
             ok = got == "ValueError"
@@ -140,6 +143,8 @@ def run_case(ctx: Ctx, case: Dict[str, Any]) -> None:  # noqa: C901
                 ok = abs(Fraction(float(got)) - want) <= Fraction(1e-6) * (1 + abs(want))
             else:
                 ok = False
+        if ok:
+            ctx.count("agree:" + cls)
         if not ok:
             ctx.violation(lp_mechanism(top, want, got),
                           "%s over %s returned %r; the exact answer is %s" % (
